@@ -72,14 +72,17 @@ class PKI:
     """root -> n intermediates -> leaf; every knob the chain-fault catalogue needs."""
 
     def __init__(self, tag="A", n_inter=0, root_cn="Forged Root", root_nb=T0 - 10 * DAY, root_na=T0 + 3650 * DAY,
-                 inter_nb=T0 - 5 * DAY, inter_na=T0 + 1000 * DAY, inter_ca=True, root_bc=True):
+                 inter_nb=T0 - 5 * DAY, inter_na=T0 + 1000 * DAY, inter_ca=True, root_bc=True, root_ski=False):
         self.tag = tag
         self.root_key = ec_key(f"{tag}_root")
         self.root_name = name(root_cn)
         # certificates are cached per parameter set so that equal PKIs are byte-identical within a run
-        rk = ("root", tag, root_cn, root_nb, root_na, root_bc)
+        rk = ("root", tag, root_cn, root_nb, root_na, root_bc, root_ski)
         if rk not in _PKI_CACHE:
-            if root_bc:
+            if root_ski:
+                _PKI_CACHE[rk] = make_cert(self.root_name, self.root_name, self.root_key.public_key(), self.root_key, nb=root_nb, na=root_na, ca=True, serial=4242,
+                                           exts=[(x509.SubjectKeyIdentifier.from_public_key(self.root_key.public_key()), False)])
+            elif root_bc:
                 _PKI_CACHE[rk] = make_cert(self.root_name, self.root_name, self.root_key.public_key(), self.root_key, nb=root_nb, na=root_na, ca=True, serial=4242)
             else:
                 # a legacy-style root: no basicConstraints at all, only keyUsage keyCertSign (OpenSSL accepts it as a trust anchor)
